@@ -979,6 +979,10 @@ func main() {
 		anyElemPart(w, r)
 		return
 	}
+	if len(os.Args) > 2 && os.Args[2] == "wktparam" {
+		wktParamPart(w, r)
+		return
+	}
 	var cases []*tcase
 	rich := richSchema("c04")
 	rroot, rtypes := rich.Build("c04")
